@@ -92,6 +92,12 @@ def run_queries(texts, shards, tag):
         if dv and dv.get("variant") == "tz":
             zoff[l] = dv["off"]
     res = evalkit.run_eval([{"qs": t, "dateval": True} for t in texts], ctx="bundled", timeout_ms=5000, shards=shards, tag=tag)
+    # a time-out is believed only when the query, run alone with a generous limit, times out again
+    slow = [i for i, r in enumerate(res) if r.get("crash") == "timeout"]
+    if slow:
+        again = evalkit.run_eval([{"qs": texts[i], "dateval": True} for i in slow], ctx="bundled", timeout_ms=60000, shards=1, tag=tag + "s")
+        for i, r in zip(slow, again):
+            res[i] = r
     events = []
     for t, r in zip(texts, res):
         zl = [{"lit": [ord(c) for c in l], "off": zoff[l]} for l in dict.fromkeys(_lit_re.findall(t)) if l in zoff]
